@@ -1,0 +1,42 @@
+//go:build verif
+
+// Contracts for the deductive verifier in /verif (govc). Comment-only.
+
+package context
+
+//@ # responses: how many responses this leaf request has produced (ghost)
+//@ ghost field LeafExecuteContext.responses int
+//@ ghost field LeafExecuteContext.lastWithErr bool
+//@ # other threads may flip completed (false -> true) at any time; whoever produced a response
+//@ # did so after winning the compare-and-swap
+//@ shared LeafExecuteContext
+//@   locations completed.val
+//@   invariant (self.responses == 0 || self.responses == 1) && (self.responses == 1 ==> self.completed.val)
+//@   rely old(self.completed.val) ==> self.completed.val
+//@ end
+//@ # the transport: assumed to send exactly one response per call
+//@ func LeafExecuteContext.sendResponse
+//@   assume
+//@   modifies ctx.responses, ctx.lastWithErr
+//@   ensures ctx.responses == old(ctx.responses) + 1 && ctx.lastWithErr == (err != nil)
+//@ end
+//@ func LeafExecuteContext.waitCollectGroupingTagsCompleted
+//@   assume
+//@ end
+//@ func github.com/lindb/lindb/flow.StorageExecuteContext.Release
+//@   assume
+//@ end
+//@ func LeafReduceContext.BuildResultSet
+//@   assume
+//@ end
+//@ func github.com/lindb/lindb/query/tracker.StageTracker.Complete
+//@   assume
+//@ end
+//@ func LeafExecuteContext.SendResponse
+//@   prop C19
+//@   requires ctx.StorageExecuteCtx != nil && ctx.ReduceCtx != nil && ctx.Tracker != nil
+//@   modifies ctx.completed.val, ctx.responses, ctx.lastWithErr
+//@   ensures[at_most_one_response] ctx.responses <= 1 && ctx.responses <= old(ctx.responses) + 1
+//@   ensures[error_in_error_out] (ctx.responses == old(ctx.responses) + 1 && err != nil) ==> ctx.lastWithErr
+//@   ensures[completed] ctx.completed.val
+//@ end
